@@ -384,11 +384,22 @@ pub fn run(cfg: &Cfg, rep: &mut Rep) {
             }
         }
     } else if file.is_none() {
-        file = LeapSecondsFile::from_path(&shipped).ok();
+        // (one read per thread: the coverage-guided driver calls run() once per input)
+        thread_local! { static SHIPPED: std::cell::RefCell<Option<LeapSecondsFile>> = const { std::cell::RefCell::new(None) }; }
+        file = SHIPPED.with(|c| {
+            let mut c = c.borrow_mut();
+            if c.is_none() {
+                *c = LeapSecondsFile::from_path(&shipped).ok();
+            }
+            c.clone()
+        });
     }
     // dense lattice
     let mut i = 0usize;
     for &(ts, o) in &tab {
+        if cfg.fuzz {
+            break;
+        }
         let mut batch = vec![];
         for s in -40i128..=40 + o as i128 {
             for ns in [0i128, 1, 250, 499_999_999, 999_999_999] {
@@ -410,6 +421,7 @@ pub fn run(cfg: &Cfg, rep: &mut Rep) {
     let nrand = cfg.budget(3_000_000);
     let y = |yy: i64| crate::model::cal::days_from_1900(yy, 1, 1) as i128 * NS_D;
     for k in 0..nrand {
+        let k = cfg.k(k, &mut r);
         let u = match r.below(10) {
             0..=2 => r.range_i128(y(1800), y(2200)),
             3 => r.range_i128(y(1960), y(1972)),
